@@ -38,6 +38,10 @@ CONTEXT_VARIANTS = [
     ('ctx-named-2', 'select a.name, a.id where a.id != "k2"', [['eve', 'qa', 'k2'], ['fay', 'qa', 'k7']], ['name', 'team', 'id'], None, None),
     ('ctx-join-1', 'select a1, b.v join b on a1 == b.k', [['k1', 'x'], ['k2', 'y']], None, [['k1', 'B1'], ['k2', 'B2']], ['k', 'v']),
     ('ctx-join-2', 'select a1, b.v join b on a1 == b.k', [['k1', 'x'], ['k2', 'y']], None, [['B1', 'k1'], ['B2', 'k2']], ['v', 'k']),
+    # the same select list with and without DISTINCT COUNT (the count column is prepended to the column infos), and with aliases
+    ('ctx-dcount', 'select distinct count a.name, a.id', [['k1', 'ann'], ['k2', 'bob'], ['k1', 'ann']], ['id', 'name'], None, None),
+    ('ctx-plain-list', 'select a.name, a.id', [['k1', 'ann'], ['k2', 'bob']], ['id', 'name'], None, None),
+    ('ctx-alias-list', 'select a.name as who, a.id', [['k1', 'ann']], ['id', 'name'], None, None),
     ('ctx-update-1', 'update set a.name = a.name + "!"', [['k1', 'ann']], ['id', 'name'], None, None),
     ('ctx-update-2', 'update set a.name = a.name + "!"', [['ann', 'k1']], ['name', 'id'], None, None),
 ]
@@ -83,7 +87,8 @@ class It(rbql_engine.TableIterator):
         return rbql_engine.TableIterator.get_record(self)
 
 class Wr(rbql_engine.RBQLOutputWriter):
-    def __init__(self, sched, tid): self.rows = []; self.sched = sched; self.tid = tid; self.finished = 0
+    def __init__(self, sched, tid): self.rows = []; self.sched = sched; self.tid = tid; self.finished = 0; self.header = None
+    def set_header(self, h): self.header = None if h is None else list(h)
     def write(self, f):
         if self.sched is not None: self.sched.yield_point(self.tid)
         self.rows.append(f); return True
@@ -96,7 +101,7 @@ def run_one(text, table, btable, sched=None, tid=0, header=None, bheader=None):
     reg = None if btable is None else rbql_engine.ListTableRegistry([rbql_engine.ListTableInfo('b', [r[:] for r in btable], bheader)])
     try:
         rbql_engine.query(text, it, w, warnings, reg)
-        res = {'rows': canon(w.rows), 'finished': w.finished, 'warnings': warnings}
+        res = {'rows': canon(w.rows), 'finished': w.finished, 'warnings': warnings, 'header': w.header}
     except Exception as e:
         res = {'err': rbql_engine.exception_to_error_info(e)[0], 'msg': str(e)[:60]}
     if sched is not None: sched.finish(tid)
